@@ -213,6 +213,8 @@ DIRECTED = [
                                   _del(0, "A", "x"), _del(0, "C", "y"), _np(5, 0, "A", "z", "iox/f0.xlsx", "s0")]},
     {"flavour": "xbind", "ops": [_np(0, 0, "A", "x", "@abs/g0.xlsx", "s0"), _bind(1, "C", "y", 0, "xmodel"),
                                  _del(1, "C", "y")]},
+    {"flavour": "abs2rel", "ops": [_np(0, 0, "m", "w", "iox/c0.csv"), _np(1, 0, "B", "y", "@abs/h0.csv"),
+                                   {"op": "set_path", "m": 0, "key": 1, "path": "iox/c0.csv"}]},
     {"flavour": "dotdot", "ops": [_np(0, 0, "A", "x", "iox/f0.xlsx", "s0"), _np(1, 0, "C", "y", "iox/sub/../f0.xlsx", "s0"),
                                   {"op": "write_read", "m": 0, "fmt": "dir"}]},
     {"flavour": "respec", "ops": [_np(0, 0, "A", "x", "iox/f0.xlsx", "s0"), _np(1, 0, "C", "y", "iox/f1.xlsx", "s0", data=0),
@@ -721,8 +723,11 @@ def apply_op(w, i, op, V, M, cnt):
             return "skip"
         if o == "set_sheet" and d["ftype"] != "excel":
             return "skip"
-        if o == "set_path" and (d["path"].startswith("@abs") or BK.ftype_of(op["path"]) != d["ftype"]):
+        if o == "set_path" and BK.ftype_of(op["path"]) != d["ftype"]:
             return "skip"
+        if o == "set_path" and (d["path"].startswith("@abs") or op["path"].startswith("@abs")) \
+                and any(e["slot"] != slot for e in b.same_file(slot, d["path"])):
+            return "skip"       # a file shared with another model is not moved across the boundary
         try:
             spec = m.get_spec(v)
         except Exception:      # noqa   judged by observe()
@@ -731,11 +736,13 @@ def apply_op(w, i, op, V, M, cnt):
             if o == "set_sheet":
                 spec.sheet = op["sheet"]
             else:
-                spec.path = op["path"]
+                spec.path = w.real(op["path"])
         except Exception:      # noqa
             cnt["sheet_path_rejections"] += 1
             return "rej"
         cnt["sheet_path_changes"] += 1
+        if o == "set_path" and d["path"].startswith("@abs") and not op["path"].startswith("@abs"):
+            V.taint("spec moved from an absolute to a relative path")
         if o == "set_sheet":
             d["sheet"] = op["sheet"]
         else:
